@@ -178,7 +178,7 @@ func pureExternal(name string) bool {
 	for _, p := range []string{"strings.", "strconv.", "fmt.Sprint", "fmt.Sprintf", "unicode/utf8.", "unicode.", "path.", "path/filepath.Clean",
 		"errors.Is", "errors.As", "errors.Unwrap", "(*strings.Builder)", "bytes.Equal", "bytes.Compare", "bytes.IndexByte", "bytes.HasPrefix",
 		"context.Background", "context.TODO", "context.WithValue", "(context.", "(*context.", "time.Duration", "(time.Duration)", "(time.Time)", "time.Unix", "io/fs.FileMode", "(io/fs.FileMode)", "math.", "sort.Search",
-		"(reflect.Type)", "reflect.TypeOf", "hash/crc32.", "crypto/sha256.Sum256", "encoding/hex.", "os.IsNotExist", "(*errors.", "(*fmt.wrapError)",
+		"(reflect.Type)", "reflect.TypeOf", "math/rand.", "(*math/rand.", "hash/crc32.", "crypto/sha256.Sum256", "encoding/hex.", "os.IsNotExist", "(*errors.", "(*fmt.wrapError)",
 		"internal/", "syscall.Errno", "(syscall.Errno)", "runtime.Caller", "runtime.FuncForPC", "runtime/debug.Stack", "(*runtime.Func)",
 	} {
 		if strings.HasPrefix(name, p) {
@@ -192,7 +192,7 @@ func pureExternal(name string) bool {
 func stdInline(name string) bool {
 	for _, p := range []string{"encoding/binary.littleEndian", "encoding/binary.bigEndian", "(encoding/binary.littleEndian)", "(encoding/binary.bigEndian)",
 		"(*sync/atomic.", "math/bits.RotateLeft", "math/bits.Reverse", "math/bits.Add64", "math/bits.Sub64", "math/bits.Mul64",
-		"(*sync.Once).Do", "sort.Slice", "slices.Grow", "slices.Clone", "slices.Contains", "slices.Index", "unicode/utf8.RuneLen", "unicode/utf8.ValidRune",
+		"(*sync.Once).Do", "sort.Slice", "(time.Duration).", "slices.Grow", "slices.Clone", "slices.Contains", "slices.Index", "unicode/utf8.RuneLen", "unicode/utf8.ValidRune",
 	} {
 		if strings.HasPrefix(name, p) {
 			return true
